@@ -215,7 +215,7 @@ func queryEvents(bc *blockchain.Blockchain, from *felt.Felt, floor uint64) ([]st
 }
 
 // checkAgainstRef: the node (long-lived or freshly restarted) must describe exactly the reference chain.
-func checkAgainstRef(r *ev.Run, what, seqName string, bc *blockchain.Blockchain, ref []*chain.Entry, floor uint64, key func(string) string, detail map[string]any) bool {
+func checkAgainstRef(r *ev.Run, what, seqName string, bc *blockchain.Blockchain, ref []*chain.Entry, floor uint64, key func(string) string, detail map[string]any, seen ...*chain.Entry) bool {
 	fail := func(kind string, extra map[string]any) bool {
 		for k, v := range detail {
 			extra[k] = v
@@ -267,6 +267,36 @@ func checkAgainstRef(r *ev.Run, what, seqName string, bc *blockchain.Blockchain,
 	// nothing above the head is reachable through any index
 	if _, err := bc.BlockByNumber(want.Block.Number + 1); err == nil {
 		return fail("block-above-head-reachable", map[string]any{})
+	}
+	if _, err := bc.BlockHeaderByNumber(want.Block.Number + 1); err == nil {
+		return fail("header-above-head-reachable", map[string]any{})
+	}
+	// blocks that were offered or stored earlier but are not part of the chain (reverted, or never committed)
+	// must not resolve by hash, nor their transactions by hash
+	inRef := map[felt.Felt]bool{}
+	txInRef := map[felt.Felt]bool{}
+	for _, e := range ref {
+		inRef[*e.Block.Hash] = true
+		for _, tx := range e.Block.Transactions {
+			txInRef[*tx.Hash()] = true
+		}
+	}
+	for _, e := range seen {
+		if !inRef[*e.Block.Hash] {
+			if n, err := bc.BlockNumberByHash(e.Block.Hash); err == nil {
+				return fail("hash-of-absent-block-still-resolves", map[string]any{"block": e.Block.Number, "resolves_to": n})
+			}
+			if _, err := bc.BlockHeaderByHash(e.Block.Hash); err == nil {
+				return fail("header-of-absent-block-still-resolves-by-hash", map[string]any{"block": e.Block.Number})
+			}
+		}
+		for _, tx := range e.Block.Transactions {
+			if !txInRef[*tx.Hash()] {
+				if _, _, err := bc.BlockNumberAndIndexByTxHash((*felt.TransactionHash)(tx.Hash())); err == nil {
+					return fail("tx-hash-of-absent-block-still-resolves", map[string]any{"block": e.Block.Number})
+				}
+			}
+		}
 	}
 	// state tries describe the head: commitment recomputed from the stored tries == header root, and reads agree
 	sr, cl, err := bc.HeadState()
@@ -344,6 +374,7 @@ func TestCheck(t *testing.T) {
 	}
 	ops = append(ops, opRevert, opL1, opSnapshot, opRestartG, opRestartU, opQuery, opPrune)
 	depth := ev.Pick(r, 2, 3)
+	stagedDepth := ev.Pick(r, 2, 3) // staged-write failures are injected into sequences up to this length
 	// deeper, targeted sequences over a reduced alphabet (snapshot / reorg / restart interplay)
 	deepOps := []op{storeOp("empty"), storeOp("A.s0=1"), opRevert, opSnapshot, opRestartU, opQuery}
 	deepDepth := ev.Pick(r, 3, 5)
@@ -440,7 +471,7 @@ func TestCheck(t *testing.T) {
 				total := n.db.Commits()
 				finalImage := chain.ImageHash(n.db.Inner())
 				// the long-lived node itself must describe the reference chain at the end
-				if !checkAgainstRef(r, "long-lived node, no fault", name, n.bc, n.ref, n.floor, key, map[string]any{}) {
+				if !checkAgainstRef(r, "long-lived node, no fault", name, n.bc, n.ref, n.floor, key, map[string]any{}, n.seen...) {
 					return
 				}
 				// ---- (a) crash after every committed write ----
@@ -482,7 +513,7 @@ func TestCheck(t *testing.T) {
 					if midOp {
 						floor = bounds[j+1].floor
 					}
-					if !checkAgainstRef(r, "fresh node on crash image", name, fresh, ref, floor, key, detail) {
+					if !checkAgainstRef(r, "fresh node on crash image", name, fresh, ref, floor, key, detail, n.seen...) {
 						continue
 					}
 					if midOp && seq[j].name == "prune" {
@@ -508,9 +539,28 @@ func TestCheck(t *testing.T) {
 					checkAgainstRef(r, "fresh node on crash image + next block", name, tmp.bc, tmp.ref, floor, key, detail)
 				}
 				// ---- (b) the k-th committed write fails ----
+				type faultPoint struct {
+					kind string
+					k    int
+				}
+				var faults []faultPoint
 				for k := 1; k <= total; k++ {
+					faults = append(faults, faultPoint{"commit", k})
+				}
+				if len(seq) <= stagedDepth {
+					// also fail every STAGED write (a Put/Delete/DeleteRange on a batch, before its commit)
+					for k := 1; k <= n.db.Staged(); k++ {
+						faults = append(faults, faultPoint{"staged-write", k})
+					}
+				}
+				for _, fk := range faults {
+					k := fk.k
 					m := mkNode()
-					m.db.FailAt(k, faultdb.ErrInjected)
+					if fk.kind == "commit" {
+						m.db.FailAt(k, faultdb.ErrInjected)
+					} else {
+						m.db.FailStagedAt(k, faultdb.ErrInjected)
+					}
 					mu.Lock()
 					faultRuns++
 					mu.Unlock()
@@ -527,12 +577,12 @@ func TestCheck(t *testing.T) {
 							continue
 						}
 						if !errors.Is(err, faultdb.ErrInjected) && !strings.Contains(err.Error(), "injected") {
-							r.Violate(key("unexpected-error-under-fault "+o.name), map[string]any{"sequence": name, "fail_commit": k, "err": err.Error()})
+							r.Violate(key("unexpected-error-under-fault "+o.name), map[string]any{"sequence": name, "fault": fk.kind, "k": k, "err": err.Error()})
 							ok = false
 							break
 						}
 						failedAt, before = i, pre
-						detail := map[string]any{"fail_commit": k, "failed_op": o.name, "op_index": i}
+						detail := map[string]any{"fault": fk.kind, "k": k, "failed_op": o.name, "op_index": i}
 						checkFloor := preFloor
 						if o.name == "prune" {
 							// a prune is a multi-batch operation: earlier batches stay durable; everything at or above
@@ -559,12 +609,21 @@ func TestCheck(t *testing.T) {
 						}
 						break
 					}
-					if !ok || failedAt < 0 {
+					if !ok {
+						continue
+					}
+					if failedAt < 0 {
+						// The injected failure was not reported by any operation (it hit a write whose error is legitimately
+						// irrelevant, or it was swallowed). Either way the node must describe its reference chain.
+						r.Outcome("injected-" + fk.kind + "-failure-not-reported")
+						checkAgainstRef(r, "long-lived node after an unreported injected failure", name, m.bc, m.ref, m.floor, func(kind string) string {
+							return key("unreported-" + fk.kind + "-failure-leaves-inconsistent-node " + kind)
+						}, map[string]any{"fault": fk.kind, "k": k}, m.seen...)
 						continue
 					}
 					for _, o := range seq[failedAt+1:] {
 						if err := o.run(m); err != nil {
-							r.Violate(key("op-fails-after-recovered-fault "+o.name), map[string]any{"sequence": name, "fail_commit": k, "err": err.Error()})
+							r.Violate(key("op-fails-after-recovered-fault "+o.name), map[string]any{"sequence": name, "fault": fk.kind, "k": k, "err": err.Error()})
 							ok = false
 							break
 						}
@@ -574,7 +633,7 @@ func TestCheck(t *testing.T) {
 					}
 					if chain.ImageHash(m.db.Inner()) != finalImage {
 						// tolerated only if observationally identical to the no-fault twin
-						if !checkAgainstRef(r, "long-lived node after recovered fault", name, m.bc, m.ref, m.floor, key, map[string]any{"fail_commit": k}) {
+						if !checkAgainstRef(r, "long-lived node after recovered fault", name, m.bc, m.ref, m.floor, key, map[string]any{"fault": fk.kind, "k": k}, m.seen...) {
 							continue
 						}
 						r.Outcome("final-image-differs-but-observations-agree")
@@ -590,7 +649,7 @@ func TestCheck(t *testing.T) {
 	r.Set("fault_points", faultRuns)
 	r.Set("distinct_nontrivial", int64(len(distinct)))
 	r.Set("rule", fmt.Sprintf("all operation sequences <=%d over {store x%d, revert, setL1Head, persistFilterSnapshot, restart-graceful, restart-ungraceful, query} plus all sequences <=%d over {store x2, revert, persistFilterSnapshot, restart-ungraceful, query}, "+
-		"from base images {empty, 3-block chain}, both state backends; for every applicable sequence: crash after EVERY committed write k (fresh node on the frozen image) and error injected into EVERY committed write k; "+
+		"from base images {empty, 3-block chain}, both state backends; for every applicable sequence: crash after EVERY committed write k (fresh node on the frozen image) and error injected into EVERY committed write k (and, for the short sequences, into every staged batch write); "+
 		"oracle = reference chain (before or after the in-flight op): all block/tx/receipt/state-update/lookup accessors, tries recomputed == head commitment, head storage, event queries == naive scan, next block stores; "+
 		"after an injected failure: no partial writes, the SAME node object still answers like the pre-op chain, the retry succeeds and the run ends like the no-fault twin", depth, len(storeNames), deepDepth))
 	r.Sample(map[string]any{"sequence": "store:A.s0=1 ; persistFilterSnapshot ; revert ; store:empty ; restart-ungraceful", "then": "crash after each commit / fail each commit"})
